@@ -65,10 +65,13 @@ class Program:
     def emit(self, program: list[NodeProtocol], writer: Writer) -> None:
         current_block = b""
         current_block_addr = self.resolver.pc
+        block_has_offset = True
         for node in program:
             node_bytes = node.emit(self.resolver.reloc_address)
 
             if node_bytes:
+                if not block_has_offset:
+                    raise RuntimeError("Cannot emit bytes after *= into RAM (no file offset); use @= to relocate.")
                 current_block += node_bytes
                 self.resolver.pc += len(node_bytes)
                 self.resolver.reloc_address += len(node_bytes)
@@ -78,6 +81,7 @@ class Program:
                     writer.write_block(current_block, current_block_addr)
                 current_block_addr = self.resolver.pc
                 current_block = b""
+                block_has_offset = self.resolver.reloc_address.physical is not None
 
             if isinstance(node, IncludeIpsNode):
                 for block_addr, block in node.blocks:
